@@ -7,3 +7,4 @@ pub mod vecs;
 #[global_allocator]
 static GLOBAL: obs::Counting = obs::Counting;
 pub mod giant;
+pub mod alias;
